@@ -30,6 +30,7 @@ Where the code as it is does not satisfy the full statement (two genuine defects
 -/
 import Drand.Daemon.Locks
 import Drand.Daemon.Dispatch
+import Gen.Echo
 
 namespace Drand.Daemon
 open Gen.LockCalls Drand.Daemon.Locks
@@ -556,6 +557,18 @@ theorem c14_still_serves_histories (cfg : Cfg) (hfix : cfg.echoNonBlocking = tru
     have := ih _ st.1
     simp only [run]
     exact ⟨this.1, by rw [this.2, storeOpen_legal _ _ st.2.2.2]⟩
+
+
+/-- the configuration the source currently has: whether `passToApplication` blocks is regenerated from internal/dkg/broadcast.go -/
+def codeCfg : Cfg := { echoNonBlocking := Gen.echoPassNonBlocking, echoCap := 3 }
+
+/-- tie: the source is the corrected variant (sends inside `select … default`); reverting the repair breaks this theorem -/
+theorem tie_echo_nonblocking : Gen.echoPassNonBlocking = true ∧ Gen.echoPassSends = 3 := ⟨rfl, rfl⟩
+
+/-- **c14_code_still_serves**: the full statement for the code as it is now, for every finite history of requests -/
+theorem c14_code_still_serves (n : Node) (hh : Healthy n) (rs : List (Layer × DkgReq)) :
+    Healthy (run codeCfg n rs) ∧ (run codeCfg n rs).phase.storeOpen = n.phase.storeOpen :=
+  c14_still_serves_histories codeCfg tie_echo_nonblocking.1 n hh rs
 
 /-- **c14_still_serves_partial** (the code as it is): the same conclusion under the hypothesis the proof forces —
 the broadcaster's application channel has room or is being read. -/
